@@ -2421,7 +2421,7 @@ func lemmaForwardSession(raw *rawEnvelope) (e *Session, e3 *Session, accepted bo
 //@   ensures cliOK(c)  ## in particular: the receiver can still be spawned (streams open) as long as it has not been
 
 //@ func newChannel :: (t, bufferSize) (result)
-//@   props C06 C08
+//@   props C03 C04 C05 C06 C07 C08 C09 C10 C14 C17 C20
 //@   panics only-if t == nil || payloadnil(t)
 //@   modifies nothing
 //@   ensures result != nil && fresh(result) && result.transport == t && result.state == SessionStateNew && !result.client
@@ -2431,7 +2431,7 @@ func lemmaForwardSession(raw *rawEnvelope) (e *Session, e3 *Session, accepted bo
 //@   ensures [C06] @sessionslot chancap(result.inSesChan) >= 1  ## the receiver adopts a terminal session only after parking it on this stream: with a slot of its own that never waits for a reader, so the state (which every send consults) follows the peer's finished/failed whatever buffer size the application chose
 
 //@ func NewClientChannel :: (t, bufferSize) (result)
-//@   props C08
+//@   props C04 C05 C06 C08 C09
 //@   panics only-if t == nil || payloadnil(t)
 //@   modifies nothing
 //@   ensures result != nil && fresh(result) && cliOK(result) && result.transport == t && result.state == SessionStateNew
@@ -2553,7 +2553,7 @@ func lemmaForwardSession(raw *rawEnvelope) (e *Session, e3 *Session, accepted bo
 //@   modifies nothing
 
 //@ func NewServerChannel :: (t, bufferSize, serverNode, sessionID) (result)
-//@   props C07 C17
+//@   props C03 C04 C06 C07 C09 C10 C14 C17 C20
 //@   panics only-if t == nil || payloadnil(t) || sessionID == "" || serverNode.Name == "" || serverNode.Domain == "" || serverNode.Instance == ""
 //@   modifies nothing
 //@   ensures result != nil && fresh(result) && result.channel != nil && fresh(result.channel) && result.transport == t && result.state == SessionStateNew && !result.client
@@ -2991,7 +2991,7 @@ func lemmaForwardSession(raw *rawEnvelope) (e *Session, e3 *Session, accepted bo
 //@ spec fn tcpInv(t *tcpTransport) bool = t != nil && t.ReadLimit > 0 && 0 <= t.limitedReader.N && t.limitedReader.N <= t.ReadLimit && t.decoder != nil && t.encoder != nil && t.ctxConn != nil && t.ctxConn.conn != nil && istype(t.decoder.src, *io.LimitedReader) && t.decoder.src.(*io.LimitedReader) == &t.limitedReader
 
 //@ func NewCtxConn :: (conn, readTimeout, writeTimeout) (result)
-//@   props C12 C16
+//@   props C01 C04 C12 C16
 //@   panics only-if conn == nil
 //@   modifies nothing
 //@   ensures result != nil && fresh(result) && result.conn == conn && result.readCtx != nil && result.writeCtx != nil
